@@ -456,8 +456,12 @@ func runC14(c *Ctx) {
 			var req ssa.Value
 			eachInstr(mr, func(_ *ssa.BasicBlock, in ssa.Instruction) {
 				if cl, ok := in.(*ssa.Call); ok {
-					if cal := cl.Call.StaticCallee(); cal != nil && c.P.IsLibFunc(cal) && cal.Signature.Results().Len() == 1 && typeStr(cal.Signature.Results().At(0).Type()) == "*rules.Request" {
-						req = cl
+					if cal := cl.Call.StaticCallee(); cal != nil && cal.Signature.Results().Len() == 1 && typeStr(cl.Type()) == "*rules.Request" {
+						// the refill helper, or the pool's Get itself when MatchRequest refills in place
+						isGet := strings.Contains(calleeName(cal), "Pool") && strings.HasSuffix(strings.TrimSuffix(calleeName(cal), ")"), ".Get")
+						if c.P.IsLibFunc(cal) || isGet {
+							req = cl
+						}
 					}
 				}
 			})
